@@ -34,6 +34,8 @@ NONDET = [
 ]
 NONDET = [(re.compile(p), k) for p, k in NONDET]
 
+from lib.keys import fn_key, Ordinals
+
 MUTATING_GUARD = "<std::sync::MutexGuard<'_, T> as std::ops::DerefMut>::deref_mut"
 
 
@@ -45,21 +47,24 @@ def run(ctx, F):
     prog = F.lib
     table = json.load(open(TABLE))
     # ---------------------------------------------------------------- 1. statics
-    rev = {(r["static"], r["ty"]): r["reason"] for r in table["statics"]}
+    rev = {(r["owner"], r["ty"]): r["reason"] for r in table["statics"]}
     n = 0
     for P, crate in ((prog, "rsass"), (F.cli, "rsass-cli"), (F.macros, "rsass-macros")):
+        ords = Ordinals()
         for name, st in sorted(P.statics.items()):
             n += 1
-            key = f"{crate}|{strip_ord(name)}|{st['ty']}"
+            # keyed by the owning item and the type, not by the static's own name or a closure ordinal
+            owner = stable_def(strip_ord(name).rsplit("::", 1)[0], P)
+            key = ords.key(f"{crate}|{owner}|{st['ty']}")
             if st["mut"]:
                 ctx.fail("F8-static-inventory", key, f"`static mut` {name}: process-wide mutable state", where=f"{st['file']}:{st['line']}")
             elif st["freeze"]:
                 ctx.ok("F8-static-inventory", key, {"immutable": True} if n < 4 else None)
-            elif (strip_ord(name), st["ty"]) in rev:
-                ctx.reviewed("F8-static-inventory", key, rev[(strip_ord(name), st["ty"])])
-            elif (strip_ord(name), "*") in rev:
-                # reviewed by name whatever its representation (its single user is checked by C06)
-                ctx.reviewed("F8-static-inventory", f"{crate}|{strip_ord(name)}|*", rev[(strip_ord(name), "*")])
+            elif (owner, st["ty"]) in rev:
+                ctx.reviewed("F8-static-inventory", key, rev[(owner, st["ty"])])
+            elif (owner, "*") in rev:
+                # reviewed by owner whatever its representation (its single user is checked by C06)
+                ctx.reviewed("F8-static-inventory", f"{crate}|{owner}|*", rev[(owner, "*")])
             else:
                 ctx.fail("F8-static-inventory", key, f"static {name}: {st['ty']} has interior mutability and is not in the reviewed table: a channel between compilations", where=f"{st['file']}:{st['line']}")
     ctx.floor("statics inventoried", n, 21)
@@ -80,7 +85,7 @@ def run(ctx, F):
             for nm in {mir.callee_name(t) or "", mir.callee_orig(t) or ""} | set(t["callee"].get("gargs", []) if not t["callee"].get("indirect") else []):
                 for rx, kind in NONDET:
                     if rx.search(nm):
-                        seen[(strip_closure_static(d), kind)] += 1
+                        seen[(stable_def(d, prog), kind)] += 1
                         break
         # types of locals: a HashMap local is a hash-order source even without a flagged callee
         for l in b.locals:
@@ -91,7 +96,7 @@ def run(ctx, F):
         if (fn, kind) in allowed:
             ctx.reviewed("F8-nondeterminism", key, allowed[(fn, kind)])
         else:
-            b = prog.bodies.get(fn)
+            b = None
             ctx.fail("F8-nondeterminism", key, f"{fn} uses a nondeterminism source ({kind}, {cnt} site(s)) outside the reviewed places (math.random, string.unique-id, loaders): output could depend on it", where=b.where() if b else None)
     ctx.floor("nondeterminism-source users", len(seen), 3)
     # ---------------------------------------------------------------- 4. schedules
@@ -122,6 +127,17 @@ def run(ctx, F):
 
 def strip_closure_static(d):
     return d
+
+
+def stable_def(d, P):
+    """line-, ordinal- and static-name-free name of a def: built-in closures by their Sass name, other closures
+    without ordinal, path segments that name a static replaced by <static>"""
+    parts = d.split("::")
+    for i in range(len(parts), 0, -1):
+        pre = "::".join(parts[:i])
+        if pre in P.statics or any(k == pre or k.startswith(pre + "#") for k in P.statics):
+            return stable_def("::".join(parts[:i - 1]), P) + "::<static>" + ("::" + "::".join(re.sub(r"\{closure#\d+\}", "{closure}", x) for x in parts[i:]) if parts[i:] else "")
+    return fn_key(d, P)
 
 
 # ------------------------------------------------------------------------------------------------
